@@ -2,7 +2,7 @@
    Statements only; proofs in Rib/RefCount.v. *)
 From Coq Require Import List NArith Bool PeanoNat.
 From GV.Base Require Import Alist Op.
-From GV.Rib Require Import Model Lemmas RefDefs RefCount Run.
+From GV.Rib Require Import Model Lemmas RefDefs RefCount RefExists Run.
 Import ListNotations.
 Open Scope N_scope.
 
@@ -51,6 +51,60 @@ Theorem C03_history_free r1 r2 n x : tables_of r1 = tables_of r2 ->
   grp_delete_refused r1 n x = grp_delete_refused r2 n x /\ nh_delete_refused r1 n x = nh_delete_refused r2 n x.
 Proof. exact (verdict_history_free r1 r2 n x). Qed.
 Print Assumptions C03_history_free.
+
+
+(* The property in its own words, for every state reached by any history: the counters are sums,
+   and a sum is non-zero exactly when a referrer EXISTS (an installed IPv4/IPv6/MPLS entry of some
+   existing instance `own` whose target is group id of n / an installed group of n listing idx). *)
+Theorem C03_referenced_group_iff_referrer_exists r n g : WF r ->
+  refs_nhg r n g <> 0%nat <-> exists own t k p, referrer_of_group r n g own t k p.
+Proof. exact (refs_nhg_pos_iff r n g). Qed.
+Print Assumptions C03_referenced_group_iff_referrer_exists.
+
+Theorem C03_referenced_nexthop_iff_referrer_exists r n i : WF r ->
+  refs_nh r n i <> 0%nat <-> exists id gp, referrer_of_nh r n i id gp.
+Proof. exact (refs_nh_pos_iff r n i). Qed.
+Print Assumptions C03_referenced_nexthop_iff_referrer_exists.
+
+(* DELETE of a group after ANY history h: FAILED (and nothing changes) exactly when the group is
+   installed and some installed entry in any instance points at it; acknowledged (and the group is
+   gone) exactly otherwise. *)
+Theorem C03_reachable_delete_group (h : list rinput) (d : N) (nofwd : bool) n o id p :
+  let r := snd (rtrace v_fixed (rib0 d nofwd) h) in
+  has_ni r n = true -> op_entry o = EGrp id p -> id <> 0 ->
+  let res := delete_entry v_fixed r n o in
+  (fails (snd res) = [op_id o] /\ oks (snd res) = [] /\ fst res = r
+     <-> grp_installed r n id = true /\ exists own t k pl, referrer_of_group r n id own t k pl)
+  /\ (oks (snd res) = [op_id o] /\ fails (snd res) = [] /\ grp_installed (fst res) n id = false
+     <-> ~ (grp_installed r n id = true /\ exists own t k pl, referrer_of_group r n id own t k pl)).
+Proof. exact (reachable_delete_group_failed_iff h d nofwd n o id p). Qed.
+Print Assumptions C03_reachable_delete_group.
+
+Theorem C03_reachable_delete_nexthop (h : list rinput) (d : N) (nofwd : bool) n o idx p :
+  let r := snd (rtrace v_fixed (rib0 d nofwd) h) in
+  has_ni r n = true -> op_entry o = ENh idx p -> idx <> 0 ->
+  let res := delete_entry v_fixed r n o in
+  (fails (snd res) = [op_id o] /\ oks (snd res) = [] /\ fst res = r
+     <-> nh_installed r n idx = true /\ exists id gp, referrer_of_nh r n idx id gp)
+  /\ (oks (snd res) = [op_id o] /\ fails (snd res) = [] /\ nh_installed (fst res) n idx = false
+     <-> ~ (nh_installed r n idx = true /\ exists id gp, referrer_of_nh r n idx id gp)).
+Proof. exact (reachable_delete_nexthop_failed_iff h d nofwd n o idx p). Qed.
+Print Assumptions C03_reachable_delete_nexthop.
+
+(* non-vacuity: after ADD nh 1, ADD nhg 1 {1}, ADD 1.0.0.0/8 -> nhg 1 the group HAS a referrer and its
+   DELETE fails; the next-hop has one too *)
+Definition ref_history : list rinput :=
+  [IAdd 1 (mk_op 1 1 ADD None (ENh 1 (Some (mk_nh [])))) [] [1];
+   IAdd 1 (mk_op 2 1 ADD None (EGrp 1 (Some (mk_grp [(1, 1)] 0 [])))) [] [2];
+   IAdd 1 (mk_op 3 1 ADD None (ETop T4 8 true (Some (mk_top 1 0 [])))) [] [3]].
+Example C03_reachable_example :
+  let r := snd (rtrace v_fixed (rib0 1 false) ref_history) in
+  has_ni r 1 = true /\ grp_installed r 1 1 = true
+  /\ referrer_of_group r 1 1 1 T4 8 (mk_top 1 0 [])
+  /\ referrer_of_nh r 1 1 1 (mk_grp [(1, 1)] 0 [])
+  /\ fails (snd (delete_entry v_fixed r 1 (mk_op 4 1 DELETE None (EGrp 1 None)))) = [4]
+  /\ fails (snd (delete_entry v_fixed r 1 (mk_op 5 1 DELETE None (ENh 1 None)))) = [5].
+Proof. vm_compute. repeat split; reflexivity. Qed.
 
 (* the pinned tree (a member listed twice counted twice): after ADD nh 1, ADD nhg 1 {1,1},
    DELETE nhg 1 the counter of nh 1 is still 1 although nothing references it, and DELETE nh 1 fails *)
